@@ -210,9 +210,9 @@ def run_once(plan, lp, traced):
 
     import random as _rm
 
+    gc.collect()   # garbage of earlier runs is finalised (its bodies may journal) before the journals are reset
     rt.reset()
     TW.reset()
-    gc.collect()
     _rm.seed(plan.get("subset_seed", 0))   # the program's view of the global RNG must not depend on tracing
     D.get_driver()
     fnames = sorted({f["name"] for f in lp.funcs.values()})
